@@ -120,3 +120,29 @@ Proof. exact transpose_value. Qed.
 Print Assumptions c11_value_flat.
 Print Assumptions c11_value_flat_matrix.
 Print Assumptions c11_transpose.
+
+(* ---- added (round 3): multilinearity in the site tensors.  Multiplying every site tensor by its own factor
+   (the harness uses compensating powers of two 2^-900..2^900 on padded networks) keeps the network well-shaped,
+   multiplies the exact value by the product of the factors of the occupied sites, and the column sweep (both
+   directions) and every split-and-recombine return exactly that [P-forall] (Tensor/Scale.v) ---- *)
+From QV Require Import Tensor.Scale.
+Theorem c11_scale_netwf : forall (K : cring) (r : nat) (tn : list (list (option (tensor K)))) (fs : list (list K)),
+  netwf K r tn -> netwf K r (scale_net K fs tn).
+Proof. exact scale_netwf. Qed.
+Theorem c11_value_scale : forall (K : cring) (r : nat) (tn : list (list (option (tensor K)))) (fs : list (list K)),
+  value r (scale_net K fs tn) = rmul K (netfac K fs tn) (value r tn).
+Proof. exact value_scale. Qed.
+Theorem c11_sweep_exact_scaled : forall (K : cring) (r : nat) (tn : list (list (option (tensor K)))) (fs : list (list K)),
+  netwf K r tn ->
+  contract K (scale_net K fs tn) None None None None None None = Ok (Scalar (rmul K (netfac K fs tn) (value r tn)))
+  /\ contract K (scale_net K fs tn) None None None None (Some 1%Z) None = Ok (Scalar (rmul K (netfac K fs tn) (value r tn)))
+  /\ contract K (scale_net K fs tn) None None None None (Some (-1)%Z) None = Ok (Scalar (rmul K (netfac K fs tn) (value r tn))).
+Proof. exact sweep_exact_scaled. Qed.
+Theorem c11_split_scaled : forall (K : cring) (r : nat) (tn : list (list (option (tensor K)))) (fs : list (list K)) (c : nat),
+  0 < c < length tn -> netwf K r tn ->
+  split_contract K (scale_net K fs tn) None None None (Z.of_nat c) = Ok (rmul K (netfac K fs tn) (value r tn)).
+Proof. exact split_exact_scaled. Qed.
+Print Assumptions c11_scale_netwf.
+Print Assumptions c11_value_scale.
+Print Assumptions c11_sweep_exact_scaled.
+Print Assumptions c11_split_scaled.
